@@ -27,3 +27,7 @@ Proof.
 Qed.
 Lemma tie_gex_updated : forall sm2, ((0 <? sm2) && negb (sm2 =? gex_openssh_trigger))%Z = src_gex_updated sm2.
 Proof. intros sm2. unfold src_gex_updated, gex_openssh_trigger. rewrite Z.gtb_ltb. reflexivity. Qed.
+
+(* the translator found the source shape it extracts gex_probe_constants from (otherwise gen/Tables.v carries fallback values and this lemma fails) *)
+Lemma tie_extract_ok_gex_probe_constants : extract_ok_gex_probe_constants = true.
+Proof. reflexivity. Qed.
